@@ -697,9 +697,7 @@ func (fr *Frame) atCallAsserts(key string, cc *ssa.CallCommon, st *State, pos to
 		if !calleeMatches(at.Callee, key, cc) {
 			continue
 		}
-		ord := fr.callOrd[at.Callee+"|"+at.Clause.Text]
-		fr.callOrd[at.Callee+"|"+at.Clause.Text] = ord + 1
-		if at.Ord >= 0 && at.Ord != ord {
+		if at.Ord >= 0 && at.Ord != fr.siteOrdinal(at.Callee, cc) {
 			continue
 		}
 		ctx := fr.specCtx(st, fr.entry, fr.curBlock, fr.curIdx)
@@ -1243,4 +1241,44 @@ func (fr *Frame) atSendAsserts(ins *ssa.Send, v Term, st *State) {
 		}
 		vc.oblige("assert", fr.tagsFor(at.Clause.Tags), fr.curReach, g, fmt.Sprintf("at send %s: %s", name, at.Clause.Text), ins.Pos(), at.Clause)
 	}
+}
+
+// siteOrdinal: the index of call site cc among the call sites of fr.fn matching the pattern, in source order.
+func (fr *Frame) siteOrdinal(pat string, cc *ssa.CallCommon) int {
+	type site struct {
+		cc  *ssa.CallCommon
+		pos token.Pos
+		seq int
+	}
+	var sites []site
+	seq := 0
+	for _, b := range fr.fn.Blocks {
+		for _, ins := range b.Instrs {
+			ci, ok := ins.(ssa.CallInstruction)
+			if !ok {
+				continue
+			}
+			c := ci.Common()
+			if _, isB := c.Value.(*ssa.Builtin); isB {
+				continue
+			}
+			key, _ := fr.calleeKey(c)
+			if calleeMatches(pat, key, c) {
+				sites = append(sites, site{c, ins.Pos(), seq})
+				seq++
+			}
+		}
+	}
+	sort.SliceStable(sites, func(i, j int) bool {
+		if sites[i].pos != sites[j].pos {
+			return sites[i].pos < sites[j].pos
+		}
+		return sites[i].seq < sites[j].seq
+	})
+	for i, s := range sites {
+		if s.cc == cc {
+			return i
+		}
+	}
+	return -1
 }
